@@ -139,3 +139,15 @@ package persistence
 //@   requires pmOK(m)
 //@   modifies pm(m).phase
 //@   callsite channel_persistence.Persister.ChannelRemoved : arg1 == pm(m).params.id && pm(m).phase == channel.Withdrawn && old(pm(m).phase) == channel.Withdrawing
+
+// Cloning a source (C19): index and phase are copied, parameters and both transactions are clones (equal view, fresh memory).
+//@ func FromSource
+//@   requires s != nil && srcParams(s).Nonce != nil && partsNonNil(srcParams(s).Parts) && txCloneable(srcStagingTX(s)) && txCloneable(srcCurrentTX(s))
+//@   ensures result != nil && fresh(result) && result.IdxV == srcIdx(s) && result.PhaseV == srcPhase(s) && result.PeersV == ps && result.Parent == parent
+//@   ensures result.ParamsV != nil && fresh(result.ParamsV) && paramsCloned(*result.ParamsV, *srcParams(s))
+//@   ensures txCloned(result.StagingTXV, srcStagingTX(s)) && txCloned(result.CurrentTXV, srcCurrentTX(s))
+//@ func CloneSource
+//@   requires s != nil && srcParams(s).Nonce != nil && partsNonNil(srcParams(s).Parts) && txCloneable(srcStagingTX(s)) && txCloneable(srcCurrentTX(s))
+//@   ensures istype(result, "*chSource") && fresh(payload(result)) && as(result, "*chSource").IdxV == srcIdx(s) && as(result, "*chSource").PhaseV == srcPhase(s)
+//@   ensures as(result, "*chSource").ParamsV != nil && fresh(as(result, "*chSource").ParamsV) && paramsCloned(*as(result, "*chSource").ParamsV, *srcParams(s))
+//@   ensures txCloned(as(result, "*chSource").StagingTXV, srcStagingTX(s)) && txCloned(as(result, "*chSource").CurrentTXV, srcCurrentTX(s))
